@@ -114,9 +114,9 @@ type c03Case struct {
 	curDiffers bool
 	acs        string // the SP's ACS URL in this case (the one SP object lives through all cases and is reconfigured in place)
 	allowIDP   bool   // AllowIDPInitiated: waives the request-ID rule, nothing else
-	methods    []int // confirmation Method per confirmation (index into confMethods)
-	curForm    int   // 0 absolute received-at URL, 1 origin-form (path only, as net/http servers see it), 2 origin-form with query
-	entry      int   // 0 xml 1 post 2 artifact(signed AR) 3 artifact(unsigned AR)
+	methods    []int  // confirmation Method per confirmation (index into confMethods)
+	curForm    int    // 0 absolute received-at URL, 1 origin-form (path only, as net/http servers see it), 2 origin-form with query
+	entry      int    // 0 xml 1 post 2 artifact(signed AR) 3 artifact(unsigned AR)
 	arIssuer   fieldVal
 	arStatus   fieldVal
 }
